@@ -161,4 +161,24 @@ Module GrpTT.
     - intros D N. specialize (J6 D). rewrite N in *. cbn in *. lia.
     - intros D P. cbn. rewrite D, P. rewrite orb_true_r. eexists. split; [reflexivity|]. reflexivity.
   Qed.
+
+  (* release() waits for hbDead only in a session whose heartbeat loop was started: from the moment Consume waits for
+     the session context until release has returned, the heartbeat loop is running or has closed hbDead (the session
+     object is created with the loop already started, before the claims' offsets are fetched — a failure there
+     releases a session that has its heartbeat loop); and release waits on hbDead only after closing hbDying *)
+  Theorem group_release_has_heartbeat : forall c s, elock c = true -> Reach (step c) (init c) s ->
+    ((cc s = CWaitCtx \/ (exists r, cc s = CRel1 r) \/ (exists r, cc s = CRelWait r) \/ (exists r, cc s = CRel2 r) \/
+      (exists r, cc s = CRelHe r) \/ (exists r, cc s = CRel3 r) \/ (exists r, cc s = CRel4 r)) -> hb s <> HNone) /\
+    ((exists r, cc s = CRel4 r) -> hb_dying s = true) /\
+    (hb s = HDone <-> hb_dead s = true).
+  Proof.
+    intros c s E R. destruct (reach_inv12 c s E R) as [I J]. destruct J as [J1 J2 J3 J4 J5 J6]. destr_inv I.
+    pose proof (h_spec (hb s)). pose proof (b2n_le1 (hb_dying s)). pose proof (b2n_le1 (hb_dead s)).
+    repeat split.
+    - intros D N. rewrite N in *. cbn in *.
+      destruct D as [D|[[r D]|[[r D]|[[r D]|[[r D]|[[r D]|[r D]]]]]]]; rewrite D in *; cbn in *; lia.
+    - intros [r D]. rewrite D in *. cbn in *. destruct (hb_dying s); auto. cbn in *. lia.
+    - intro D. rewrite D in *. cbn in *. destruct (hb_dead s); auto. cbn in *. lia.
+    - intro D. rewrite D in *. cbn in *. destruct (hb s); cbn in *; auto; lia.
+  Qed.
 End GrpTT.
